@@ -5,7 +5,11 @@ Model of the maximisation step of MCMC-SAEM (property C04).
   src/leaspy/variables/specs.py               `ModelParameter.for_pop_mean / for_ind_mean / for_ind_std`,
                                               `compute_update` (burn-in rule when given)
   src/leaspy/variables/utilities.py           `compute_individual_parameter_std_from_sufficient_statistics`
-  src/leaspy/models/utilities.py              `compute_std_from_variance` (tolerance guard), `compute_probs_from_state`
+  src/leaspy/models/utilities.py              `compute_std_from_variance` (tolerance guard), `compute_probs_from_state`,
+                                              `compute_ind_param_mean_from_suff_stats_mixture`,
+                                              `compute_ind_param_std_from_suff_stats_mixture(_burn_in)`
+  src/leaspy/models/mixture.py                `get_variables_specs`: `tau/xi/sources_mean = for_ind_mean_mixture`,
+                                              `tau/xi_std = for_ind_std_mixture`, `probs = for_probs`
   src/leaspy/models/obs_models/_gaussian.py   `scalar_noise_std_update`, `diagonal_noise_std_update`,
                                               `y_L2(_per_ft)`, `n_obs(_per_ft)`
 
@@ -51,6 +55,8 @@ inductive MErr where
   | convergence   -- `LeaspyConvergenceError` of `compute_std_from_variance`
   | missing       -- a statistic / old value the rule needs is absent (python `KeyError`)
   | shape
+  | nan           -- no exception in python: the tensor holds `nan` (`0/0`, `sqrt` of a negative number)
+  | inf           -- no exception in python: the tensor holds `±inf` (`a/0`, `a ≠ 0`)
 deriving DecidableEq, Repr
 
 /-- `compute_std_from_variance` without the final `sqrt`: `if (variance < tol).any(): raise`. -/
@@ -199,6 +205,127 @@ def Rule.apply (burnIn : Bool) (r : Rule α) (old : Old α) (S : Stats α) : Exc
 def step (burnIn : Bool) (old : Old α) (S : Stats α) (rules : List (String × Rule α)) :
     List (String × Except MErr (List α)) :=
   updateAll old S (rules.map (fun nr => (nr.1, fun o s => nr.2.apply burnIn o s)))
+
+end
+
+/-! ### mixture rules
+
+`models/utilities.py`.  All three individual-parameter rules start with
+
+    probs_ind = torch.nn.Softmax(dim=1)(torch.clamp(-state["nll_regul_ind_sum_ind"].value, -100.0))     # (n, K)
+
+(the *responsibilities*; `nll_regul_ind_sum_ind` is a function of the current latent values and of the *pre-step*
+parameters `tau/xi/sources_mean`, `tau/xi_std`, `probs`).  As for `softmaxRow`, the exponentials
+`exp(clamp(-nll, -100) - rowmax)` are data.  A "column" below is the list over individuals of one cluster's
+responsibilities (`probs_ind[:, c]`) or of one coordinate of a latent variable / statistic (`tau[:, 0]`, `sources[:, j]`). -/
+
+section
+variable {α : Type} [Add α] [Sub α] [Mul α] [Div α] [OfNat α 0] [OfNat α 1] [NatCast α]
+
+/-- `probs_ind`: one softmax row per individual -/
+def resp (expo : List (List α)) : List (List α) := expo.map softmaxRow
+
+/-- `(probs_ind * ind_var).sum(dim=0)` for one cluster and one coordinate -/
+def dot (r x : List α) : α := sum (List.zipWith (fun ri xi => ri * xi) r x)
+
+/-- `compute_ind_param_mean_from_suff_stats_mixture`, one cluster `c`, one coordinate:
+    `(probs_ind * ind_var).sum(dim=0) / probs_ind.sum(dim=0)` — the responsibility-weighted mean of the **current
+    latent values** `state[ip_name]` (the statistic `Collect(ip_name)` is collected but never read; no Bessel-like
+    correction, no epsilon).  Division as a field operation; `mixMeanE` says what torch does when the divisor is 0. -/
+def mixMean (r x : List α) : α := dot r x / sum r
+
+/-- responsibility-weighted sum of squared deviations from a centre -/
+def wsqdev (r x : List α) (c : α) : α := sum (List.zipWith (fun ri xi => ri * ((xi - c) * (xi - c))) r x)
+
+/-- The **documented** dispersion of a cluster (responsibility-weighted mean squared deviation from the centre `c`).
+    This is *not* what the code computes (see `mixVar`, `C04.mixVar_not_weighted_counterexample`); reference only. -/
+def mixVarDoc (r x : List α) (c : α) : α := wsqdev r x c / sum r
+
+/-- `compute_ind_param_std_from_suff_stats_mixture`, cluster `c`, before `sqrt`:
+    `ip_var = torch.mean(ip_sqr_values, dim=0) - 2 * ip_old_mean * torch.mean(ip_values, dim=0) + ip_old_mean**2`
+    with `ip_old_mean = state[f"{ip_name}_mean"]` of shape `(K,)`: the **unweighted** means over *all* individuals of the
+    statistics `x`, `x²`, centred on the **pre-step** mean of cluster `c`.  Same operation order as `indVar`. -/
+def mixVar (oldMeanC : α) (xs xsqr : List α) : α :=
+  (mean xsqr - (1 + 1) * oldMeanC * mean xs) + oldMeanC * oldMeanC
+
+/-- last line of both std rules: `(probs_ind * std).sum(dim=0) / probs_ind.sum(dim=0)` where `std` has shape `(K,)`
+    (resp. `(1,)` in the memory-less phase) and is broadcast over the individuals: for cluster `c` the *same* number
+    `s = std[c]` is averaged with the weights `probs_ind[:, c]`. -/
+def mixAvgConst (r : List α) (s : α) : α := sum (r.map (fun ri => ri * s)) / sum r
+
+end
+
+/-- all results, or the first error (python evaluates the whole tensor at once; a `nan` entry does not raise) -/
+def collect {β : Type} : List (Except MErr β) → Except MErr (List β)
+  | [] => .ok []
+  | .ok v :: t => (collect t).map (v :: ·)
+  | .error e :: _ => .error e
+
+section
+variable {α : Type} [Add α] [Sub α] [Mul α] [Div α] [OfNat α 0] [OfNat α 1] [NatCast α] [LT α] [DecidableLT α]
+  [DecidableEq α]
+
+/-- IEEE division as torch performs it, made explicit: `0/0 = nan`, `a/0 = ±inf`. -/
+def divE (a b : α) : Except MErr α :=
+  if b = 0 then (if a = 0 then .error .nan else .error .inf) else .ok (a / b)
+
+/-- the mixture mean rule with the division made explicit -/
+def mixMeanE (r x : List α) : Except MErr α := divE (dot r x) (sum r)
+
+/-- the mixture std rule for cluster `c`, given the variance `v` the code computed (`mixVar` after, `indVarBurnIn` in,
+    the memory-less phase), **as a variance**: `std = v.sqrt()` is `nan` for `v < 0` (there is *no*
+    `compute_std_from_variance` guard here: the `tol` keyword ends in `**kws`), then `mixAvgConst r std` is `0/0 = nan`
+    when cluster `c` has zero total responsibility and `std` otherwise (`C04.mixAvgConst_cancels`). -/
+def mixStdVarE (r : List α) (v : α) : Except MErr α :=
+  if v < 0 then .error .nan else if sum r = 0 then .error .nan else .ok v
+
+/-- all cluster means of one variable: result of shape `(d, K)` flattened row-major (`tau_mean`: `(K,)`, `sources_mean`: `(d, K)`) -/
+def mixMeans (rcols xcols : List (List α)) : Except MErr (List α) :=
+  (collect (xcols.map (fun xc => collect (rcols.map (fun rc => mixMeanE rc xc))))).map List.flatten
+
+/-- what the mixture rules read in the **pre-step** state besides the statistics -/
+structure MixPre (α : Type) where
+  params : Old α                              -- `state[f"{ip_name}_mean"]`: `K` pre-step cluster means per variable
+  latents : List (String × List (List α))     -- `state[ip_name]`: current latent values, `n × d`
+  expo : List (List α)                        -- `n × K` exponentials of `clamp(-nll_regul_ind_sum_ind, -100)`
+
+inductive MixRule (α : Type) where
+  | base (r : Rule α)            -- population means, noise (and the non-mixture rules)
+  | mixMean (var : String)       -- `for_ind_mean_mixture`
+  | mixStd (var : String)        -- `for_ind_std_mixture` (result: variances)
+  | probs (K : Nat)              -- `for_probs`
+
+/-- `ModelParameter.compute_update` for the rule set of `models/mixture.py`. -/
+def MixRule.apply (burnIn : Bool) (r : MixRule α) (pre : MixPre α) (S : Stats α) : Except MErr (List α) :=
+  match r with
+  | .base r => r.apply burnIn pre.params S
+  | .mixMean v => do
+      let xcols ← (lookup pre.latents v) >>= columns
+      let rcols ← columns (resp pre.expo)
+      if xcols.any (fun xc => rcols.any (fun rc => rc.length ≠ xc.length)) then .error .shape else
+      mixMeans rcols xcols
+  | .mixStd v => do
+      let rcols ← columns (resp pre.expo)
+      if burnIn then do
+        -- `state[ip_name].std(dim=0)`: Bessel-corrected dispersion of the current latent values, all individuals
+        let xcols ← (lookup pre.latents v) >>= columns
+        match xcols with
+        | [xc] => collect (rcols.map (fun rc => mixStdVarE rc (indVarBurnIn xc)))
+        | _ => .error .shape
+      else do
+        let cols ← (lookup S.named v) >>= columns
+        let sq ← (lookup S.named (v ++ "_sqr")) >>= columns
+        let om ← lookup pre.params (v ++ "_mean")
+        if om.length ≠ rcols.length then .error .shape else
+        match cols, sq with
+        | [xc], [qc] => collect ((om.zip rcols).map (fun p => mixStdVarE p.2 (mixVar p.1 xc qc)))
+        | _, _ => .error .shape
+  | .probs K => pure (mixtureProbs K pre.expo)
+
+/-- the maximisation step of the mixture model: every rule evaluated on the pre-step state -/
+def mixStep (burnIn : Bool) (pre : MixPre α) (S : Stats α) (rules : List (String × MixRule α)) :
+    List (String × Except MErr (List α)) :=
+  updateAll pre S (rules.map (fun nr => (nr.1, fun o s => nr.2.apply burnIn o s)))
 
 end
 
